@@ -29,7 +29,7 @@ WEIGHTS = {'layered': 6, 'split_candidate': 5, 'double_split': 4, 'merge_chain':
 
 def strategy(tier):
     return S.pipeline_case(WEIGHTS, vary=('msa', 'okta', 'sep', 'base', 'algo'), p_default_prms=0.2,
-                           exclude=False, index_kinds=True, anomalies=True, anomaly_negative=False)
+                           index_kinds=True, anomalies=True, anomaly_negative=False)
 
 
 def rowkey(c, dt, h, t):
